@@ -7,7 +7,6 @@ import (
 	"fmt"
 	"os"
 	"reflect"
-	"runtime"
 	"sort"
 	"strings"
 	"sync"
@@ -405,22 +404,28 @@ func (d *fakeDisc) set(lo, hi int) {
 }
 
 type fakeEH struct {
-	mu    sync.Mutex
-	log   []string
-	hook  func(string)
-	waitN int // goroutines inside stream.wait() when the current Close began
+	mu   sync.Mutex
+	log  []string
+	hook func(string)
+	st   stream.Stream // set by the session / life-cycle environments: lets AfterRebalanceStart see the closed session's wait() finish
 }
 
-// waitGoroutines counts the goroutines of this process that are inside (*stream).wait
-func waitGoroutines() int {
-	buf := make([]byte, 1<<20)
-	for {
-		n := runtime.Stack(buf, true)
-		if n < len(buf) {
-			return strings.Count(string(buf[:n]), "stream.(*stream).wait(")
+// streamFlag reads an unexported bool field of the real stream object (read-only, for scheduling the harness; no hook in /repo)
+func streamFlag(st stream.Stream, name string) (val, ok bool) {
+	defer func() {
+		if recover() != nil {
+			val, ok = false, false
 		}
-		buf = make([]byte, 2*len(buf))
+	}()
+	v := reflect.ValueOf(st)
+	if v.Kind() != reflect.Ptr || v.IsNil() {
+		return false, false
 	}
+	f := v.Elem().FieldByName(name)
+	if !f.IsValid() || f.Kind() != reflect.Bool {
+		return false, false
+	}
+	return *(*bool)(unsafe.Pointer(f.UnsafeAddr())), true
 }
 
 func (e *fakeEH) rec(s string) {
@@ -435,32 +440,31 @@ func (e *fakeEH) rec(s string) {
 func (e *fakeEH) BeforeRebalanceStart() { e.rec("BRS") }
 
 // AfterRebalanceStart runs after Close() has handed its token to the wait() goroutine of the closed session and before the
-// re-open is armed: the harness waits here until that goroutine has finished (it must read `balancing` while it is still true).
-// This makes the WaitPrompt assumption of the life-cycle model true in the harness whatever the CPU load is; without it the
-// starved goroutine wakes after the re-open, closes stopCh, and a later wait() closes it again: `close of closed channel`
-// kills the process (finding F16; the micro-schedules that do this on purpose are the stream life-wait).
+// re-open is armed: the harness waits here (at most 25 ms) until that goroutine has taken the token - it sets
+// streamFinishedWithCloseCh and then reads `balancing`, which stays true until the re-open has completed. This makes the
+// WaitPrompt assumption of the life-cycle model true in the harness whatever the CPU load is; without it the starved goroutine
+// wakes after the re-open, closes stopCh, and a later wait() closes it again: `close of closed channel` kills the process
+// (finding F16; the micro-schedules that do this on purpose are the stream life-wait). A session whose streams had all ended
+// (streamFinishedWithEndEventCh) sends no token: nothing to wait for.
 func (e *fakeEH) AfterRebalanceStart() {
 	e.rec("ARS")
-	e.mu.Lock()
-	n := e.waitN
-	e.mu.Unlock()
-	if n > 0 {
-		for dl := time.Now().Add(25 * time.Millisecond); waitGoroutines() >= n && time.Now().Before(dl); {
-			time.Sleep(200 * time.Microsecond)
+	if e.st == nil {
+		return
+	}
+	for dl := time.Now().Add(25 * time.Millisecond); time.Now().Before(dl); {
+		c, ok1 := streamFlag(e.st, "streamFinishedWithCloseCh")
+		d, ok2 := streamFlag(e.st, "streamFinishedWithEndEventCh")
+		if !ok1 || !ok2 || c || d {
+			return
 		}
+		time.Sleep(100 * time.Microsecond)
 	}
 }
 func (e *fakeEH) BeforeRebalanceEnd() { e.rec("BRE") }
 func (e *fakeEH) AfterRebalanceEnd()  { e.rec("ARE") }
 func (e *fakeEH) BeforeStreamStart()  { e.rec("BSS") }
 func (e *fakeEH) AfterStreamStart()   { e.rec("ASS") }
-func (e *fakeEH) BeforeStreamStop() {
-	e.rec("BSP")
-	n := waitGoroutines()
-	e.mu.Lock()
-	e.waitN = n
-	e.mu.Unlock()
-}
+func (e *fakeEH) BeforeStreamStop()   { e.rec("BSP") }
 
 // AfterStreamStop is the last callback before Close tests `streamFinishedWithEndEventCh`: yielding here lets the
 // wait() goroutine consume its token first (the WaitPrompt assumption of the life-cycle model; without it the
